@@ -221,6 +221,18 @@ def s2(chk: Check, proj: Project, w, m, cls) -> None:
     chk.ob("S2", "component_registry:_register_to_library:tag-installed-on-every-registration", m.loc(rt[0]) if rt else m.loc(rl), okt,
            "register_tag(...) runs unconditionally for every registered component" if okt else
            f"register_tag(...) is skipped when `{' and '.join(('' if pol else 'not ') + t for t, pol in cond_atoms(enclosing_stmt(rt[0]))) if rt else '?'}`: after the last user of a tag was unregistered (which deletes the tag from the Library) a later register() of a component needing that tag leaves the Library WITHOUT the tag - all() lists the component, the template tag does not exist")
+    from . import generic
+    from ..state import accesses, inventory
+
+    chk.rule("S8", "what register / unregister ask about a Library or a formatter is answered from their CURRENT state: the protection lookup is not memoised (the protected list of a Library changes: mark_protected_tags after a first registration), and computing a tag writes no state shared between formatter instances or registries")
+    generic.no_value_keyed_memo(chk, "S8", proj, [("library", "is_tag_protected"), ("library", "mark_protected_tags"), ("tag_formatter", "get_tag_formatter")],
+                                "the protected list of a Library is mutable: after `mark_protected_tags(lib, ['slot'])` a registry that asked about 'slot' earlier still gets 'not protected' and overwrites / removes the protected tag")
+    inv_ = inventory(proj)
+    tfm = proj.mod("tag_formatter")
+    shared_w = [a for k_, g_ in inv_.items() if g_.mod is tfm for a in accesses(proj, g_) if a.kind in ("insert", "remove", "rebind", "elem-insert") and a.func is not None]
+    chk.ob("S8", "tag_formatter:no-shared-state-written-while-formatting", shared_w[0].loc if shared_w else tfm.loc(tfm.tree), not shared_w,
+           "the tag_formatter module keeps no table that formatting writes to" if not shared_w else
+           f"`{short(shared_w[0].stmt())}` memoises a formatting result in module-level `{shared_w[0].g.name}`: the key cannot tell two INSTANCES of one formatter class apart (ComponentFormatter('component') vs ComponentFormatter('widget')), so the second registry gets the first one's tag and its Library ends up with a tag none of its components use")
     # all() answers with the registry's CONTENT, not with a handle on its state: a fresh dict per call
     al = m.func("ComponentRegistry.all")
     chk.analysed(fkey(m, al))
